@@ -61,6 +61,17 @@ type FuncContract struct {
 	Line       int
 	GhostVars  []Param // logical variables: universally quantified over the whole contract
 	Where      *Clause // hypothesis about the logical variables, referred to as `where` in clauses
+	Partial    bool    // paths reaching an instruction outside the subset are abandoned (listed as unchecked)
+	CallSites  []*CallSiteSpec
+	StopAfter  []string
+}
+
+// CallSiteSpec is an assertion checked at every call of Callee inside the function, in the caller's scope;
+// arg0..argN name the actual arguments (arg0 is the receiver of a method call).
+type CallSiteSpec struct {
+	Callee string
+	Tag    string
+	Clause *Clause
 }
 
 type SpecFn struct {
@@ -98,6 +109,7 @@ type PkgContracts struct {
 	LemmaByName map[string]*Lemma
 	Assumptions []string // mechanical scan: trusted / axiom entries
 	GlobalInvs  []*Clause
+	GhostVars   []Param // package-level ghost state: "ghostvar name type", read and written only by contracts as ghost.name
 }
 
 var ckeywords = map[string]bool{
@@ -105,6 +117,7 @@ var ckeywords = map[string]bool{
 	"ensures": true, "modifies": true, "nopanic": true, "nooverflow": true, "pure": true,
 	"trusted": true, "inline": true, "loop": true, "use": true, "split": true, "tier": true,
 	"induct": true, "ih": true, "allocbound": true, "abstract": true, "ghost": true, "uninterp": true, "where": true, "import": true, "globalinv": true, "slow": true,
+	"partial": true, "callsite": true, "ghostvar": true, "stopafter": true,
 }
 
 func parseParams(s string) ([]Param, error) {
@@ -309,6 +322,13 @@ func loadContracts(path string) (*PkgContracts, error) {
 			}
 			pc.Lemmas = append(pc.Lemmas, curL)
 			pc.LemmaByName[curL.Name] = curL
+		case "ghostvar":
+			curF, curL = nil, nil
+			ps, err := parseParams(rest)
+			if err != nil {
+				return nil, fail(l, "ghostvar: %v", err)
+			}
+			pc.GhostVars = append(pc.GhostVars, ps...)
 		case "globalinv":
 			// package-level invariant over effectively-final globals: proved on init, assumed elsewhere
 			curF, curL = nil, nil
@@ -424,6 +444,25 @@ func loadContracts(path string) (*PkgContracts, error) {
 					}
 				case "nopanic":
 					curF.NoPanic = true
+				case "partial":
+					curF.Partial = true
+				case "stopafter":
+					// stopafter <callee>...: symbolic execution of the function ends after the first call of one of
+					// these callees on each path (only the prefix up to and including that call is checked)
+					curF.Partial = true
+					curF.StopAfter = append(curF.StopAfter, strings.Fields(strings.ReplaceAll(rest, ",", " "))...)
+				case "callsite":
+					// callsite <callee> assert [tag] <expr>
+					f := strings.Fields(rest)
+					if len(f) < 3 || f[1] != "assert" {
+						return nil, fail(l, "callsite: expected 'callsite <callee> assert <expr>'")
+					}
+					body := strings.TrimSpace(strings.TrimPrefix(strings.TrimSpace(rest[len(f[0]):]), "assert"))
+					c, err := mkClause(l, body)
+					if err != nil {
+						return nil, err
+					}
+					curF.CallSites = append(curF.CallSites, &CallSiteSpec{Callee: f[0], Tag: c.Tag, Clause: c})
 				case "nooverflow":
 					curF.NoOverflow = true
 				case "pure":
